@@ -14,6 +14,9 @@ Inductive seg :=
 | SDynQ (t : token)                       (* the same, followed by the double quote that closes an attribute value *)
 | SRaw (t : token)                        (* the value of the expression as it is: `!=`, `! ... #{}` *)
 | SBlock (stmt : bytes) (body : list seg)  (* the Go statement [stmt { body }]: body rendered when / as often as Go runs it *)
+| SBlockOpen (stmt : bytes) (body : list seg)   (* [stmt { body] with the closing brace left to the `else` that follows *)
+| SBlockCont (stmt : bytes) (body : list seg)   (* [} stmt { body], again left open: `else if` followed by another else *)
+| SBlockLast (stmt : bytes) (body : list seg)   (* [} stmt { body }]: the last link of an if / else chain *)
 | SChildren                               (* = @children : __children.Render(ctx, __buf) *)
 | SRender (expr : bytes) (block : option (list seg)).
                                           (* = @render expr : expr.Render(ctx, __buf), or with the nested content as children *)
@@ -29,6 +32,13 @@ Definition eval_segs (rho : bytes -> bytes) (l : list seg) : bytes :=
 Definition Lo (ind : nat) : wlocal := mkWL ind true true false.     (* a string literal is open *)
 Definition Lc (ind : nat) : wlocal := mkWL ind false false false.   (* no literal is open *)
 Definition loc_of (ind : nat) (m : bool) : wlocal := if m then Lo ind else Lc ind.
+
+(** where a run of generated code starts or ends: inside an open string literal, outside, or outside with an
+    `if`/`else if` block still waiting for its `} else` (the closing brace has not been written) *)
+Inductive mode := MO | MC | MP.
+Definition mode_of_bool (b : bool) : mode := if b then MO else MC.
+Coercion mode_of_bool : bool >-> mode.
+Definition bool_of_mode (m : mode) : bool := match m with MO => true | _ => false end.
 
 Definition opener (ind : nat) : bytes := tabs ind ++ write_string_open ++ lit """".
 
@@ -54,6 +64,10 @@ Definition attr_dyn_code (ind : nat) (t : token) : bytes :=
 Definition block_code (ind : nat) (stmt body_code : bytes) (mb : bool) : bytes :=
   tabs ind ++ stmt ++ lit " {" ++ [10] ++ body_code ++ (if mb then close_text (Lo (S ind)) else []) ++ tabs ind ++ lit "}" ++ [10].
 
+(** one link of an if / else-if / else chain, without its closing brace *)
+Definition chain_head_code (ind : nat) (first : bool) (stmt body_code : bytes) (mb : bool) : bytes :=
+  tabs ind ++ (if first then [] else lit "} ") ++ stmt ++ lit " {" ++ [10] ++ body_code ++ (if mb then close_text (Lo (S ind)) else []).
+
 Definition children_code (ind : nat) : bytes :=
   tabs ind ++ lit "if __err = __children.Render(ctx, __buf); __err != nil { return }" ++ [10].
 
@@ -68,7 +82,10 @@ Definition render_block_code (ind : nat) (v expr body_code : bytes) (mb : bool) 
   List.concat (map (fun line => tabs ind ++ line) render_body_post) ++
   tabs ind ++ lit "if __err = " ++ expr ++ lit ".Render(goht.PushChildren(ctx, " ++ v ++ lit "), __buf); __err != nil { return }" ++ [10].
 
-Inductive denotes : nat -> bool -> bool -> bytes -> list seg -> Prop :=
+Lemma block_code_chain ind code bc mb : chain_head_code ind true code bc mb ++ tabs ind ++ lit "}" ++ [10] = block_code ind code bc mb.
+Proof. unfold chain_head_code, block_code. rewrite app_nil_l. rewrite <- !app_assoc. reflexivity. Qed.
+
+Inductive denotes : nat -> mode -> mode -> bytes -> list seg -> Prop :=
 | d_nil ind m : denotes ind m m [] []
 | d_lit ind p h rest segs m' : reads_as p h -> denotes ind true m' rest segs -> denotes ind true m' (p ++ rest) (SLit h :: segs)
 | d_open ind rest segs m' : denotes ind true m' rest segs -> denotes ind false m' (opener ind ++ rest) segs
@@ -79,19 +96,29 @@ Inductive denotes : nat -> bool -> bool -> bytes -> list seg -> Prop :=
 | d_children ind rest segs m' : denotes ind false m' rest segs -> denotes ind false m' (children_code ind ++ rest) (SChildren :: segs)
 | d_render ind expr rest segs m' : denotes ind false m' rest segs ->
     denotes ind false m' (render_code ind expr ++ rest) (SRender expr None :: segs)
-| d_render_block ind v expr body_code body mb rest segs m' :
+| d_render_block ind v expr body_code body (mb : bool) rest segs m' :
     denotes (S ind) false mb body_code body -> denotes ind false m' rest segs ->
     denotes ind false m' (render_block_code ind v expr body_code mb ++ rest) (SRender expr (Some body) :: segs)
-| d_block ind stmt body_code body mb rest segs m' :
+| d_block ind stmt body_code body (mb : bool) rest segs m' :
     denotes (S ind) false mb body_code body -> denotes ind false m' rest segs ->
-    denotes ind false m' (block_code ind stmt body_code mb ++ rest) (SBlock stmt body :: segs).
+    denotes ind false m' (block_code ind stmt body_code mb ++ rest) (SBlock stmt body :: segs)
+| d_block_open ind stmt body_code body (mb : bool) rest segs m' :
+    denotes (S ind) false mb body_code body -> denotes ind MP m' rest segs ->
+    denotes ind false m' (chain_head_code ind true stmt body_code mb ++ rest) (SBlockOpen stmt body :: segs)
+| d_block_cont ind stmt body_code body (mb : bool) rest segs m' :
+    denotes (S ind) false mb body_code body -> denotes ind MP m' rest segs ->
+    denotes ind MP m' (chain_head_code ind false stmt body_code mb ++ rest) (SBlockCont stmt body :: segs)
+| d_block_last ind stmt body_code body (mb : bool) rest segs m' :
+    denotes (S ind) false mb body_code body -> denotes ind false m' rest segs ->
+    denotes ind MP m' ((chain_head_code ind false stmt body_code mb ++ tabs ind ++ lit "}" ++ [10]) ++ rest) (SBlockLast stmt body :: segs).
 
 Lemma denotes_app ind m1 m2 m3 c1 s1 c2 s2 : denotes ind m1 m2 c1 s1 -> denotes ind m2 m3 c2 s2 -> denotes ind m1 m3 (c1 ++ c2) (s1 ++ s2).
 Proof.
   intro H1. revert m3 c2 s2.
   induction H1 as [ind m|ind p h rest segs m' Hr _ IH|ind rest segs m' _ IH|ind rest segs m' _ IH|ind v t rest segs m' _ IH
                   |ind t rest segs m' _ IH|ind v t rest segs m' _ IH|ind rest segs m' _ IH|ind expr rest segs m' _ IH
-                  |ind v expr bc body mb rest segs m' Hb _ _ IH|ind stmt bc body mb rest segs m' Hb _ _ IH]; intros m3 c2 s2 H2; cbn [app].
+                  |ind v expr bc body mb rest segs m' Hb _ _ IH|ind stmt bc body mb rest segs m' Hb _ _ IH
+                  |ind stmt bc body mb rest segs m' Hb _ _ IH|ind stmt bc body mb rest segs m' Hb _ _ IH|ind stmt bc body mb rest segs m' Hb _ _ IH]; intros m3 c2 s2 H2; cbn [app].
   - exact H2.
   - rewrite <- app_assoc. apply d_lit; [exact Hr|apply IH; exact H2].
   - rewrite <- app_assoc. apply d_open. apply IH; exact H2.
@@ -103,6 +130,9 @@ Proof.
   - rewrite <- app_assoc. apply d_render. apply IH; exact H2.
   - rewrite <- app_assoc. apply d_render_block; [exact Hb|apply IH; exact H2].
   - rewrite <- app_assoc. apply d_block; [exact Hb|apply IH; exact H2].
+  - rewrite <- app_assoc. apply d_block_open; [exact Hb|apply IH; exact H2].
+  - rewrite <- app_assoc. apply d_block_cont; [exact Hb|apply IH; exact H2].
+  - rewrite <- app_assoc. apply d_block_last; [exact Hb|apply IH; exact H2].
 Qed.
 
 (** writer states of the two modes *)
@@ -111,17 +141,20 @@ Variable ind : nat.
 
 Definition MS (m : bool) (st : est) : Prop := w_err (fst st) = None /\ snd st = loc_of ind m.
 
-Definition Run (m : bool) (st : est) (m' : bool) (st' : est) (segs : list seg) : Prop :=
-  MS m' st' /\ exists code, txt st' = txt st ++ code /\ denotes ind m m' code segs.
+Definition Run (m : mode) (st : est) (m' : mode) (st' : est) (segs : list seg) : Prop :=
+  MS (bool_of_mode m') st' /\ exists code, txt st' = txt st ++ code /\ denotes ind m m' code segs.
 
-Lemma Run_refl m st : MS m st -> Run m st m st [].
-Proof. intro H. split; [exact H|]. exists []. split; [rewrite app_nil_r; reflexivity|constructor]. Qed.
+Lemma Run_refl (m : bool) st : MS m st -> Run m st m st [].
+Proof. intro H. split; [destruct m; exact H|]. exists []. split; [rewrite app_nil_r; reflexivity|constructor]. Qed.
 
 Lemma Run_trans m1 s1 m2 s2 m3 s3 a b : Run m1 s1 m2 s2 a -> Run m2 s2 m3 s3 b -> Run m1 s1 m3 s3 (a ++ b).
 Proof.
   intros [_ (c1 & T1 & D1)] [M3 (c2 & T2 & D2)]. split; [exact M3|]. exists (c1 ++ c2).
   split; [rewrite T2, T1, app_assoc; reflexivity|eapply denotes_app; eassumption].
 Qed.
+
+Lemma Run_ms {m st} {m' : bool} {st' segs} : Run m st m' st' segs -> MS m' st'.
+Proof. intros [H _]. destruct m'; exact H. Qed.
 
 (** a static chunk, in either mode: opens a literal when none is open *)
 Lemma chunk_run m p h st : MS m st -> reads_as p h -> Run m st true (tw_write_string_literal p st) [SLit h].
@@ -301,8 +334,21 @@ Definition dyn_text (o : token) : Prop := static_text o \/ toktype_eqb (t_typ o)
 Definition block_stmt (o : token) : Prop :=
   let code := go_trim_space (t_lit o) in
   any_prefix c_openingStatements code = true /\ has_suffix (lit "{") code = false /\
-  has_prefix (lit "}") code = false /\
-  has_prefix (lit "}") (t_lit o) = false /\ any_prefix c_elseStatements (t_lit o) = false.
+  has_prefix (lit "}") code = false /\ has_prefix (lit "}") (t_lit o) = false.
+
+(** `- else` / `- else if` lines continue the block of the `-` line before them *)
+Definition is_else (n : node) : bool :=
+  match n with Node (KSilent o _ _) _ => any_prefix c_elseStatements (t_lit o) | _ => false end.
+Definition is_block (n : node) : bool := match n with Node (KSilent _ _ _) _ => true | _ => false end.
+(** does the list start with an else line: the block before it is left open *)
+Definition ho (r : list node) : bool := match r with n :: _ => is_else n | [] => false end.
+(** an else line only directly after a `-` block *)
+Fixpoint adj_ok (l : list node) : Prop :=
+  match l with
+  | c :: r => (ho r = true -> is_block c = true) /\ adj_ok r
+  | [] => True
+  end.
+Definition kids_ok (l : list node) : Prop := ho l = false /\ adj_ok l.
 
 (** attributes: bare, with a static value, with a dynamic value `name: #{expr}`, or conditional `name?: #{cond}` *)
 Definition dyn_attr (a : attribute) : Prop :=
@@ -350,76 +396,79 @@ Fixpoint dyn_node (n : node) : Prop :=
   | Node k ch =>
     let all := (fix all (l : list node) : Prop := match l with [] => True | c :: r => dyn_node c /\ all r end) in
     match k with
-    | KElement _ _ d => dyn_elem d /\ all ch
+    | KElement _ _ d => dyn_elem d /\ kids_ok ch /\ all ch
     | KText o => dyn_text o
     | KScript _ => True
     | KNewLine _ => True
     | KDoctype _ => True
     | KComment o _ => t_lit o <> [] /\ bytes_ok (t_lit o)
-    | KSilent o _ _ => block_stmt o /\ ch <> [] /\ all ch
+    | KSilent o _ _ => block_stmt o /\ ch <> [] /\ kids_ok ch /\ all ch
     | KUnescape _ _ => Forall raw_child ch
     | KChildren _ => True
-    | KRender _ _ => all ch
+    | KRender _ _ => kids_ok ch /\ all ch
     | _ => False
     end
   end.
 
-Fixpoint segs_of (n : node) : list seg :=
+(** the segments of a node; [nc]: it continues a chain, [fl]: the chain goes on after it *)
+Fixpoint segs_of (nc fl : bool) (n : node) : list seg :=
   match n with
   | Node k ch =>
-    let kids := (fix kids (l : list node) : list seg := match l with [] => [] | c :: r => segs_of c ++ kids r end) in
+    let kids := (fix kids (nc : bool) (l : list node) : list seg :=
+                   match l with
+                   | [] => []
+                   | c :: r => segs_of nc (is_block c && ho r) c ++ kids (is_block c && ho r) r
+                   end) in
     match k with
     | KElement _ _ d =>
       [SLit (lit "<" ++ e_tag d); SLit (id_class_html d)] ++ attrs_segs d ++ [SLit (lit ">")] ++
       (if e_selfclosing d then []
-       else (if only_newline ch then [] else kids ch) ++ [SLit (lit "</" ++ e_tag d ++ lit ">"); SLit [10]])
+       else (if only_newline ch then [] else kids false ch) ++ [SLit (lit "</" ++ e_tag d ++ lit ">"); SLit [10]])
     | KText o => if toktype_eqb (t_typ o) TDynamicText then [SDyn o] else [SLit (text_html o)]
     | KScript o => [SDyn o]
     | KNewLine _ => [SLit [10]]
     | KDoctype _ => [SLit (lit "<!DOCTYPE html>")]
     | KComment o _ => [SLit (lit "<!--" ++ html_escape (t_lit o) ++ lit "-->" ++ [10])]
-    | KSilent o _ _ => [SBlock (go_trim_space (t_lit o)) (kids ch)]
+    | KSilent o _ _ =>
+      let stmt := go_trim_space (t_lit o) in
+      let body := kids false ch in
+      [match nc, fl with
+       | false, false => SBlock stmt body
+       | false, true => SBlockOpen stmt body
+       | true, true => SBlockCont stmt body
+       | true, false => SBlockLast stmt body
+       end]
     | KUnescape _ _ => List.concat (map raw_segs ch)
     | KChildren _ => [SChildren]
-    | KRender o _ => [SRender (t_lit o) (match ch with [] => None | _ => Some (kids ch) end)]
+    | KRender o _ => [SRender (t_lit o) (match ch with [] => None | _ => Some (kids false ch) end)]
     | _ => []
     end
   end.
 
-Definition segs_list (l : list node) : list seg := List.concat (map segs_of l).
+Fixpoint segs_list (nc : bool) (l : list node) : list seg :=
+  match l with
+  | [] => []
+  | c :: r => segs_of nc (is_block c && ho r) c ++ segs_list (is_block c && ho r) r
+  end.
 
-Lemma segs_kids_eq l : (fix kids (l : list node) : list seg := match l with [] => [] | c :: r => segs_of c ++ kids r end) l = segs_list l.
-Proof. induction l as [|c r IH]; [reflexivity|]. unfold segs_list. cbn [map List.concat]. rewrite IH. reflexivity. Qed.
+Lemma segs_kids_eq : forall l nc,
+  (fix kids (nc : bool) (l : list node) : list seg :=
+     match l with [] => [] | c :: r => segs_of nc (is_block c && ho r) c ++ kids (is_block c && ho r) r end) nc l = segs_list nc l.
+Proof. induction l as [|c r IH]; intro nc; [reflexivity|]. cbn [segs_list]. rewrite IH. reflexivity. Qed.
 
 Lemma dyn_all_eq l : (fix all (l : list node) : Prop := match l with [] => True | c :: r => dyn_node c /\ all r end) l <-> Forall dyn_node l.
 Proof. induction l as [|c r IH]; [split; constructor|]. split; [intros [H1 H2]; constructor; [exact H1|apply IH; exact H2]|intro H; inversion H; split; [assumption|apply IH; assumption]]. Qed.
 
-(** the node that follows does not take over or close the block *)
-Definition next_ok (next : option node) : Prop :=
-  match is_silent next with
-  | Some c => has_prefix (lit "}") c = false /\ any_prefix c_elseStatements c = false
-  | None => True
-  end.
-
-Lemma next_ok_dyn n : dyn_node n -> next_ok (Some n).
-Proof.
-  destruct n as [k ch]. unfold next_ok. cbn [is_silent dyn_node]. destruct k; try (intros; exact I).
-  intros [(_ & _ & _ & H1 & H2) _]. split; assumption.
-Qed.
-
-Lemma next_ok_hd rest : Forall dyn_node rest -> next_ok (hd_error rest).
-Proof. intro H. destruct rest as [|n r]; [exact I|]. inversion H; subst. apply next_ok_dyn. assumption. Qed.
-
 (** attributes, from either mode *)
 Lemma render_attrs_run sm ind (l : list (bytes * attribute)) : forall m st,
   Forall (fun kv => dyn_attr (snd kv)) l -> MS ind m st ->
-  exists m', Run ind m st m' (render_attrs sm l st) (List.concat (map (fun kv => attr_segs (snd kv)) l)).
+  exists m' : bool, Run ind m st m' (render_attrs sm l st) (List.concat (map (fun kv => attr_segs (snd kv)) l)).
 Proof.
   induction l as [|[k a] rest IH]; intros m st Hall H; [exists m; apply Run_refl; exact H|].
   inversion Hall as [|? ? [Hname Hval] Hrest]; subst. cbn [snd] in *. cbn [render_attrs map List.concat]. cbv zeta.
   destruct (chunk_attr_name_ok (a_name a) Hname) as [Rn Ro].
-  match goal with |- exists m', Run ind m st m' (render_attrs sm rest ?x) _ => set (s1 := x) end.
-  assert (Hone : exists m1, Run ind m st m1 s1 (attr_segs a)).
+  match goal with |- exists m' : bool, Run ind _ st _ (render_attrs sm rest ?x) _ => set (s1 := x) end.
+  assert (Hone : exists m1 : bool, Run ind m st m1 s1 (attr_segs a)).
   { subst s1. unfold attr_segs. destruct (a_value a) as [|v0 v] eqn:Ev.
     - exists true. apply chunk_run; assumption.
     - destruct (a_bool a) eqn:Eb.
@@ -450,14 +499,14 @@ Proof.
         * (* static value *)
           rewrite Hd. pose proof (chunk_run ind m _ _ st H Ro) as R1.
           destruct (chunk_attr_value_ok (v0 :: v) Hok) as [Rv _].
-          pose proof (chunk_run ind true _ _ _ (proj1 R1) Rv) as R2.
+          pose proof (chunk_run ind true _ _ _ (Run_ms ind R1) Rv) as R2.
           exists true. change [SLit (lit " " ++ a_name a ++ lit "=" ++ [34]); SLit (html_escape (v0 :: v) ++ [34])]
             with ([SLit (lit " " ++ a_name a ++ lit "=" ++ [34])] ++ [SLit (html_escape (v0 :: v) ++ [34])]).
           eapply Run_trans; eassumption.
         * (* dynamic value *)
           rewrite Hd. pose proof (chunk_run ind m _ _ st H Ro) as R1.
           set (st1 := tw_write_string_literal (chunk_attr_open (a_name a)) st) in *.
-          destruct (tw_wri_run ind true (write_string_open ++ lit "goht.EscapeString(") st1 (proj1 R1)) as [M2 T2].
+          destruct (tw_wri_run ind true (write_string_open ++ lit "goht.EscapeString(") st1 (Run_ms ind R1)) as [M2 T2].
           set (st2 := tw_wri (write_string_open ++ lit "goht.EscapeString(") st1) in *.
           assert (Q2 : quiet st2) by (destruct M2 as [A B]; split; [exact A|rewrite B; reflexivity]).
           destruct (write_formatted_text_txt sm (a_origin a) st2 Q2) as (Q3 & L3 & T3).
@@ -471,11 +520,11 @@ Proof.
           -- rewrite T4, T3, T2. unfold attr_dyn_code. rewrite <- !app_assoc. reflexivity.
           -- apply d_close. rewrite <- (app_nil_r (attr_dyn_code _ _)). apply d_attr. constructor. }
   destruct Hone as (m1 & R1). clearbody s1.
-  destruct (IH m1 s1 Hrest (proj1 R1)) as (m2 & R2). exists m2. eapply Run_trans; [exact R1|exact R2].
+  destruct (IH m1 s1 Hrest (Run_ms ind R1)) as (m2 & R2). exists m2. eapply Run_trans; [exact R1|exact R2].
 Qed.
 
 Lemma render_attributes_run sm ind d st : dyn_elem d -> MS ind true st ->
-  exists m', Run ind true st m' (render_attributes sm d st) (SLit (id_class_html d) :: attrs_segs d).
+  exists m' : bool, Run ind true st m' (render_attributes sm d st) (SLit (id_class_html d) :: attrs_segs d).
 Proof.
   intros (Htag & Hid & Hcl & Hobj & Hca & Hat & Hcmd & _) H. unfold render_attributes. cbv zeta. rewrite Hobj, Hca, Hcmd.
   set (st2 := match e_id d with [] => st | _ => _ end).
@@ -525,53 +574,68 @@ Proof.
 Qed.
 
 Definition node_run_at (n : node) : Prop :=
-  dyn_node n -> forall ind sm next m st, next_ok next -> MS ind m st ->
-  exists m', Run ind m st m' (fst (emit_node sm n next false st)) (segs_of n) /\ snd (emit_node sm n next false st) = false.
+  dyn_node n -> forall ind sm r (m : bool) st, Forall dyn_node r ->
+  MS ind (if is_else n then false else m) st ->
+  exists m' : bool,
+    Run ind (if is_else n then MP else mode_of_bool m) st (if is_block n && ho r then MP else mode_of_bool m')
+        (fst (emit_node sm n (hd_error r) (is_else n) st)) (segs_of (is_else n) (is_block n && ho r) n) /\
+    snd (emit_node sm n (hd_error r) (is_else n) st) = (is_block n && ho r).
 
-Lemma list_run sm (l : list node) : Forall node_run_at l -> Forall dyn_node l -> forall ind m st, MS ind m st ->
-  exists m', Run ind m st m' (emit_list sm l false st) (segs_list l).
+Lemma list_run sm (l : list node) : Forall node_run_at l -> Forall dyn_node l -> adj_ok l -> forall ind (m : bool) st,
+  MS ind (if ho l then false else m) st ->
+  exists m' : bool, Run ind (if ho l then MP else mode_of_bool m) st m' (emit_list sm l (ho l) st) (segs_list (ho l) l).
 Proof.
-  induction 1 as [|c rest Hc _ IH]; intros Hs ind m st H; [exists m; apply Run_refl; exact H|].
-  inversion Hs as [|? ? Hsc Hsr]; subst. cbn [emit_list].
-  destruct (Hc Hsc ind sm (hd_error rest) m st (next_ok_hd rest Hsr) H) as (m1 & R1 & F1).
-  destruct (emit_node sm c (hd_error rest) false st) as [s1 f1]. cbn [fst snd] in *. subst f1.
-  destruct (IH Hsr ind m1 s1 (proj1 R1)) as (m2 & R2). exists m2. unfold segs_list. cbn [map List.concat]. eapply Run_trans; eassumption.
+  induction 1 as [|c rest Hc _ IH]; intros Hs Hadj ind m st H; [exists m; apply Run_refl; exact H|].
+  inversion Hs as [|? ? Hsc Hsr]; subst. destruct Hadj as [Hfl Hadj]. cbn [emit_list segs_list ho] in *.
+  destruct (Hc Hsc ind sm rest m st Hsr H) as (m1 & R1 & F1).
+  assert (Efl : is_block c && ho rest = ho rest) by (destruct (ho rest); [rewrite (Hfl eq_refl); reflexivity|apply Bool.andb_false_r]).
+  rewrite Efl in *.
+  destruct (emit_node sm c (hd_error rest) (is_else c) st) as [s1 f1]. cbn [fst snd] in *. subst f1.
+  assert (M1 : MS ind (if ho rest then false else m1) s1) by (destruct R1 as [M _]; destruct (ho rest); [exact M|destruct m1; exact M]).
+  destruct (IH Hsr Hadj ind m1 s1 M1) as (m2 & R2). exists m2. eapply Run_trans; eassumption.
+Qed.
+
+(** lists of children: they never start with an else line *)
+Lemma kids_run sm (l : list node) : Forall node_run_at l -> Forall dyn_node l -> kids_ok l -> forall ind (m : bool) st,
+  MS ind m st -> exists m' : bool, Run ind m st m' (emit_list sm l false st) (segs_list false l).
+Proof.
+  intros Hn Hd [Hho Hadj] ind m st H. pose proof (list_run sm l Hn Hd Hadj ind m st) as HL. rewrite Hho in HL. apply HL. exact H.
 Qed.
 
 Theorem dyn_node_runs n : node_run_at n.
 Proof.
-  induction n as [k ch IH] using node_ind2. intros Hs ind sm next m st Hnext H.
-  rewrite emit_node_unfold. cbn [dyn_node] in Hs. cbn [segs_of]. rewrite segs_kids_eq.
-  destruct k; try contradiction; unfold emit_node_body; cbv zeta.
+  induction n as [k ch IH] using node_ind2. intros Hs ind sm r m st Hr H.
+  rewrite emit_node_unfold. cbn [dyn_node] in Hs. cbn [segs_of]. rewrite !segs_kids_eq.
+  destruct k; try contradiction; cbn [is_else is_block andb] in *; unfold emit_node_body; cbv zeta.
   - (* doctype *)
     assert (R : reads_as (lit "<!DOCTYPE html>") (lit "<!DOCTYPE html>")) by (apply reads_as_plain; repeat constructor; cbn; try lia; discriminate).
     exists true. cbn [fst snd]. split; [apply chunk_run; assumption|reflexivity].
   - (* element *)
-    destruct Hs as [Hd Hch]. apply dyn_all_eq in Hch.
+    destruct Hs as [Hd [Hko Hch]]. apply dyn_all_eq in Hch.
     pose proof Hd as (Htag & _ & _ & _ & _ & _ & _ & Hni & Hno). rewrite Hni, Hno.
     destruct (chunk_tag_ok (e_tag d) Htag) as [Rto Rtc].
     pose proof (chunk_run ind m _ _ st H Rto) as R1.
     set (st1 := tw_write_string_literal (chunk_tag_open (e_tag d)) st) in *.
-    destruct (render_attributes_run sm ind d st1 Hd (proj1 R1)) as (m2 & R2).
+    destruct (render_attributes_run sm ind d st1 Hd (Run_ms ind R1)) as (m2 & R2).
     set (st2 := render_attributes sm d st1) in *.
     assert (Rgt : reads_as (lit ">") (lit ">")) by (apply reads_as_plain; repeat constructor; cbn; try lia; discriminate).
-    pose proof (chunk_run ind m2 _ _ st2 (proj1 R2) Rgt) as R3.
+    pose proof (chunk_run ind m2 _ _ st2 (Run_ms ind R2) Rgt) as R3.
     set (st4 := tw_write_string_literal (lit ">") st2) in *.
     assert (R4 : Run ind m st true st4 ([SLit (lit "<" ++ e_tag d); SLit (id_class_html d)] ++ attrs_segs d ++ [SLit (lit ">")])).
     { change ([SLit (lit "<" ++ e_tag d); SLit (id_class_html d)] ++ attrs_segs d ++ [SLit (lit ">")])
         with ([SLit (lit "<" ++ e_tag d)] ++ (SLit (id_class_html d) :: attrs_segs d) ++ [SLit (lit ">")]).
       eapply Run_trans; [exact R1|]. eapply Run_trans; [exact R2|exact R3]. }
-    match goal with |- exists m', Run ind m st m' _ (?X ++ ?Y ++ ?Z ++ ?W) /\ _ =>
+    match goal with |- exists m' : bool, Run ind _ st _ _ (?X ++ ?Y ++ ?Z ++ ?W) /\ _ =>
       replace (X ++ Y ++ Z ++ W) with ((X ++ Y ++ Z) ++ W) by (rewrite <- !app_assoc; reflexivity) end.
     destruct (e_selfclosing d); cbn [fst snd].
     + exists true. rewrite app_nil_r. split; [exact R4|reflexivity].
     + fold (only_newline ch).
-      assert (H6 : exists m6, Run ind true st4 m6 (if only_newline ch then st4 else emit_list sm ch false st4) (if only_newline ch then [] else segs_list ch)).
-      { destruct (only_newline ch); [exists true; apply Run_refl; exact (proj1 R4)|]. apply list_run; [assumption|assumption|exact (proj1 R4)]. }
+      assert (H6 : exists m6 : bool, Run ind true st4 m6 (if only_newline ch then st4 else emit_list sm ch false st4) (if only_newline ch then [] else segs_list false ch)).
+      { destruct (only_newline ch); [exists true; apply Run_refl; exact (Run_ms ind R4)|]. apply kids_run; [assumption|assumption|exact Hko|exact (Run_ms ind R4)]. }
       destruct H6 as (m6 & R6). set (st6 := if only_newline ch then st4 else emit_list sm ch false st4) in *.
-      pose proof (chunk_run ind m6 _ _ st6 (proj1 R6) Rtc) as R8.
+      pose proof (chunk_run ind m6 _ _ st6 (Run_ms ind R6) Rtc) as R8.
       set (st8 := tw_write_string_literal (chunk_tag_close (e_tag d)) st6) in *.
-      pose proof (chunk_run ind true _ _ st8 (proj1 R8) reads_as_escaped_newline) as R9.
+      pose proof (chunk_run ind true _ _ st8 (Run_ms ind R8) reads_as_escaped_newline) as R9.
       exists true. split; [|reflexivity].
       eapply Run_trans; [exact R4|]. eapply Run_trans; [exact R6|].
       change [SLit (lit "</" ++ e_tag d ++ lit ">"); SLit [10]] with ([SLit (lit "</" ++ e_tag d ++ lit ">")] ++ [SLit [10]]).
@@ -597,13 +661,15 @@ Proof.
     exists m'. split; [|reflexivity]. split.
     + split; [exact E5|]. unfold set_unesc at 1. cbn [set_local snd]. rewrite L5. destruct m'; reflexivity.
     + exists code. split; [|exact D5]. unfold set_unesc at 1. rewrite txt_set_local, T5. unfold set_unesc. rewrite txt_set_local. reflexivity.
-  - (* a `-` block *)
-    destruct Hs as [(Hop & Hsuf & Hpre & _ & _) [Hne Hch]]. apply dyn_all_eq in Hch.
-    rewrite Hop, Hsuf, Hpre. cbn [andb negb].
+  - (* a `-` block, alone or as a link of an if / else chain *)
+    destruct Hs as [(Hop & Hsuf & Hpre & Hraw) [Hne [Hko Hch]]]. apply dyn_all_eq in Hch.
+    set (nc := any_prefix c_elseStatements (t_lit origin)) in *.
+    rewrite Hop, Hsuf, Hpre. cbn [andb negb]. rewrite !Bool.andb_true_r.
     destruct ch as [|c0 ch0]; [congruence|]. cbn [andb negb].
     set (code := go_trim_space (t_lit origin)) in *.
-    destruct (tw_wri_run ind m [] st H) as [M1 T1].
-    set (st1 := tw_wri [] st) in *.
+    set (m0 := if nc then false else m) in *.
+    destruct (tw_wri_run ind m0 (if nc then lit "} " else []) st H) as [M1 T1].
+    set (st1 := tw_wri (if nc then lit "} " else []) st) in *.
     assert (Q1 : quiet st1) by (destruct M1 as [A B]; split; [exact A|rewrite B; reflexivity]).
     destruct (tw_write_add_quiet sm code origin st1 Q1) as [Q3 L3]. pose proof (tw_write_add_txt sm code origin st1 Q1) as T3.
     set (st3 := tw_write_add sm code origin st1) in *.
@@ -612,7 +678,8 @@ Proof.
     assert (E4 : snd st4 = Lc ind) by (rewrite L4, L3; exact (proj2 M1)).
     assert (Mb : MS (S ind) false (set_local st4 (indent_local (snd st4) 1))).
     { split; [exact (proj1 Q4)|]. cbn [set_local snd]. rewrite E4. unfold indent_local, Lc, loc_of. cbn [wl_indent wl_static wl_errh wl_unesc]. rewrite Nat.add_1_r. reflexivity. }
-    destruct (list_run sm (c0 :: ch0) IH Hch (S ind) false _ Mb) as (mb & [E5 L5] & body_code & T5 & D5).
+    destruct (kids_run sm (c0 :: ch0) IH Hch Hko (S ind) false _ Mb) as (mb & R5).
+    pose proof (Run_ms (S ind) R5) as [E5 L5]. destruct R5 as [_ (body_code & T5 & D5)].
     rewrite txt_set_local in T5.
     set (st5 := emit_list sm (c0 :: ch0) false (set_local st4 (indent_local (snd st4) 1))) in *.
     assert (Hclose : w_err (fst (tw_close st5)) = None /\ txt (tw_close st5) = txt st5 ++ (if mb then close_text (Lo (S ind)) else [])).
@@ -620,23 +687,50 @@ Proof.
       - destruct (close_string_literal_txt st5 E5) as ([Ec _] & _ & _ & Tc). rewrite L5 in Tc. split; [exact Ec|exact Tc].
       - split; [exact E5|rewrite app_nil_r; reflexivity]. }
     destruct Hclose as [E6 T6].
-    set (st6 := set_local (tw_close st5) (snd st4)).
+    set (st6 := set_local (tw_close st5) (snd st4)) in *.
     assert (M6 : MS ind false st6) by (split; [exact E6|exact E4]).
-    destruct (tw_wri_run ind false (lit "}" ++ [10]) st6 M6) as [M7 T7].
-    assert (Hfinal : Run ind m st false (tw_wri (lit "}" ++ [10]) st6) [SBlock code (segs_list (c0 :: ch0))]).
-    { split; [exact M7|].
-      exists ((if m then close_text (Lo ind) else []) ++ block_code ind code body_code mb). split.
-      - rewrite T7. unfold st6. rewrite txt_set_local, T6, T5, T4, T3, T1. unfold block_code. cbn [app]. rewrite <- !app_assoc. reflexivity.
-      - assert (Db : denotes ind false false (block_code ind code body_code mb) [SBlock code (segs_list (c0 :: ch0))]).
-        { rewrite <- (app_nil_r (block_code _ _ _ _)). apply d_block; [exact D5|constructor]. }
-        destruct m; [apply d_close; exact Db|exact Db]. }
-    exists false. unfold next_ok in Hnext. destruct (is_silent next) as [nc0|].
-    + destruct Hnext as [Hn1 Hn2]. rewrite Hn1, Hn2. cbn [andb negb fst snd]. split; [exact Hfinal|reflexivity].
-    + cbn [fst snd]. split; [exact Hfinal|reflexivity].
+    assert (T6' : txt st6 = txt st ++ (if m0 then close_text (Lo ind) else []) ++ chain_head_code ind (negb nc) code body_code mb).
+    { unfold st6. rewrite txt_set_local, T6, T5, T4, T3, T1. unfold chain_head_code. destruct nc; cbn [negb app]; rewrite <- !app_assoc; reflexivity. }
+    (* does the chain go on? *)
+    assert (Hflag : match is_silent (hd_error r) with
+                    | Some next_code => has_prefix (lit "}") next_code = false /\ any_prefix c_elseStatements next_code = ho r
+                    | None => ho r = false
+                    end).
+    { destruct r as [|n' r']; [reflexivity|]. inversion Hr as [|? ? Hn' _]; subst. destruct n' as [k' ch']. cbn [hd_error is_silent ho is_else].
+      destruct k'; try reflexivity. cbn [dyn_node] in Hn'. destruct Hn' as [(_ & _ & _ & Hraw') _]. split; [exact Hraw'|reflexivity]. }
+    destruct (ho r) eqn:Eho.
+    + (* left open for the else that follows *)
+      destruct (is_silent (hd_error r)) as [next_code|]; [|discriminate]. destruct Hflag as [Hc1 Hc2]. rewrite Hc1, Hc2. cbn [andb negb fst snd].
+      exists false. split; [|reflexivity]. split; [exact M6|].
+      exists ((if m0 then close_text (Lo ind) else []) ++ chain_head_code ind (negb nc) code body_code mb). split; [exact T6'|].
+      unfold m0. destruct nc; cbn [negb].
+      * rewrite <- (app_nil_r (chain_head_code _ _ _ _ _)). cbn [app]. apply d_block_cont; [exact D5|constructor].
+      * assert (Db : denotes ind false MP (chain_head_code ind true code body_code mb) [SBlockOpen code (segs_list false (c0 :: ch0))]).
+        { rewrite <- (app_nil_r (chain_head_code _ _ _ _ _)). apply d_block_open; [exact D5|constructor]. }
+        destruct m; [apply d_close; exact Db|exact Db].
+    + (* closed here *)
+      destruct (tw_wri_run ind false (lit "}" ++ [10]) st6 M6) as [M7 T7].
+      assert (Hres : (if negb (has_prefix (lit "}") (match is_silent (hd_error r) with Some c => c | None => [] end)) && negb (match is_silent (hd_error r) with Some c => any_prefix c_elseStatements c | None => false end) then true else true) = true) by (destruct (_ && _); reflexivity).
+      assert (Hout : (match is_silent (hd_error r) with
+                      | Some next_code =>
+                        if negb (has_prefix (lit "}") next_code) && negb (any_prefix c_elseStatements next_code)
+                        then (tw_wri (lit "}" ++ [10]) st6, false) else (st6, any_prefix c_elseStatements next_code)
+                      | None => (tw_wri (lit "}" ++ [10]) st6, false)
+                      end) = (tw_wri (lit "}" ++ [10]) st6, false)).
+      { destruct (is_silent (hd_error r)) as [next_code|]; [|reflexivity]. destruct Hflag as [Hc1 Hc2]. rewrite Hc1, Hc2. reflexivity. }
+      rewrite Hout. cbn [fst snd]. exists false. split; [|reflexivity]. split; [exact M7|].
+      exists ((if m0 then close_text (Lo ind) else []) ++ chain_head_code ind (negb nc) code body_code mb ++ tabs ind ++ lit "}" ++ [10]). split.
+      * rewrite T7, T6'. cbn [app]. rewrite <- !app_assoc. reflexivity.
+      * unfold m0. destruct nc; cbn [negb].
+        -- cbn [app]. rewrite <- (app_nil_r (chain_head_code ind false code body_code mb ++ tabs ind ++ lit "}" ++ [10])).
+           apply d_block_last; [exact D5|constructor].
+        -- assert (Db : denotes ind false false (chain_head_code ind true code body_code mb ++ tabs ind ++ lit "}" ++ [10]) [SBlock code (segs_list false (c0 :: ch0))]).
+           { rewrite block_code_chain. rewrite <- (app_nil_r (block_code _ _ _ _)). apply d_block; [exact D5|constructor]. }
+           destruct m; [apply d_close; exact Db|exact Db].
   - (* script *)
     cbn [fst snd]. exists false. split; [apply dyn_run; exact H|reflexivity].
   - (* = @render *)
-    apply dyn_all_eq in Hs.
+    destruct Hs as [Hko Hs]. apply dyn_all_eq in Hs.
     destruct ch as [|c0 ch0]; cbn [fst snd].
     + (* without nested content *)
       destruct (tw_wri_run ind m (lit "if __err = ") st H) as [M1 T1]. set (st1 := tw_wri (lit "if __err = ") st) in *.
@@ -664,7 +758,8 @@ Proof.
       assert (I3 : snd st3 = Lc (S ind)).
       { rewrite L4. cbn [set_local snd]. rewrite E2. unfold indent_local, Lc. cbn [wl_indent wl_static wl_errh wl_unesc]. rewrite Nat.add_1_r. reflexivity. }
       assert (M3 : MS (S ind) false st3) by (split; [exact (proj1 Q4)|exact I3]).
-      destruct (list_run sm (c0 :: ch0) IH Hs (S ind) false st3 M3) as (mb & [E5 L5] & body_code & T5 & D5).
+      destruct (kids_run sm (c0 :: ch0) IH Hs Hko (S ind) false st3 M3) as (mb & R5).
+      pose proof (Run_ms (S ind) R5) as [E5 L5]. destruct R5 as [_ (body_code & T5 & D5)].
       set (st4 := emit_list sm (c0 :: ch0) false st3) in *.
       assert (Hclose : w_err (fst (tw_close st4)) = None /\ txt (tw_close st4) = txt st4 ++ (if mb then close_text (Lo (S ind)) else [])).
       { unfold tw_close, close_if_static. rewrite L5. destruct mb; cbn [loc_of Lo Lc wl_static].
@@ -685,7 +780,7 @@ Proof.
       exists ((if m then close_text (Lo ind) else []) ++ render_block_code ind v (t_lit origin) body_code mb). split.
       * rewrite T10, T9, T8, T7, T6, T5, T4, T2, T1. cbn [set_local snd]. rewrite E2. cbn [Lc wl_indent indent_local].
         unfold render_block_code. rewrite Nat.add_1_r. cbn [app]. rewrite <- !app_assoc. reflexivity.
-      * assert (Dr : denotes ind false false (render_block_code ind v (t_lit origin) body_code mb) [SRender (t_lit origin) (Some (segs_list (c0 :: ch0)))]).
+      * assert (Dr : denotes ind false false (render_block_code ind v (t_lit origin) body_code mb) [SRender (t_lit origin) (Some (segs_list false (c0 :: ch0)))]).
         { rewrite <- (app_nil_r (render_block_code _ _ _ _ _)). apply d_render_block; [exact D5|constructor]. }
         destruct m; [apply d_close; exact Dr|exact Dr].
   - (* = @children *)
@@ -700,14 +795,14 @@ Qed.
 
 (** * a whole template with a body of this fragment *)
 Theorem dyn_template_code o body :
-  Forall dyn_node body ->
-  exists m' code,
-    denotes 2 false m' code (segs_list body) /\
+  Forall dyn_node body -> kids_ok body ->
+  exists (m' : bool) code,
+    denotes 2 false m' code (segs_list false body) /\
     item_err (Node (KGoht o) body) = None /\
     item_text (Node (KGoht o) body) =
       lit "func " ++ t_lit o ++ c_gohtEntry ++ code ++ (if m' then close_text (Lo 2) else []) ++ c_gohtExit.
 Proof.
-  intro Hall. unfold item_text, item_err. rewrite emit_node_unfold. unfold emit_node_body. cbv zeta. cbn [fst].
+  intros Hall Hko. unfold item_text, item_err. rewrite emit_node_unfold. unfold emit_node_body. cbv zeta. cbn [fst].
   assert (Q0 : quiet (reset_var_name init_st)) by (split; reflexivity).
   assert (E0 : snd (reset_var_name init_st) = wl_init) by reflexivity.
   assert (T0 : txt (reset_var_name init_st) = []) by reflexivity.
@@ -721,9 +816,10 @@ Proof.
   assert (Hb : MS 2 false (set_local st4 (indent_local (snd st4) 2))).
   { split; [exact (proj1 Q3)|]. cbn [set_local snd]. rewrite L3. reflexivity. }
   assert (Hn : Forall node_run_at body) by (apply Forall_forall; intros n _; apply dyn_node_runs).
-  destruct (list_run false body Hn Hall 2%nat false _ Hb) as (m' & [E5 L5] & code & T5 & D5).
+  destruct (kids_run false body Hn Hall Hko 2%nat false _ Hb) as (m' & R5).
+  pose proof (Run_ms 2 R5) as [E5 L5]. destruct R5 as [_ (code & T5 & D5)].
   rewrite txt_set_local in T5.
-  generalize dependent (emit_list false body false (set_local st4 (indent_local (snd st4) 2))). intros st5 E5 L5 T5.
+  generalize dependent (emit_list false body false (set_local st4 (indent_local (snd st4) 2))). intros st5 T5 E5 L5.
   exists m', code. split; [exact D5|].
   assert (Hclose : w_err (fst (tw_close st5)) = None /\ txt (tw_close st5) = txt st5 ++ (if m' then close_text (Lo 2) else [])).
   { unfold tw_close, close_if_static. rewrite L5. destruct m'; cbn [loc_of Lo Lc wl_static].
@@ -753,14 +849,18 @@ Proof.
   induction 1 as [|kv l Hkv _ IH]; [reflexivity|]. cbn [map List.concat]. rewrite eval_app, IH, (eval_attr_static rho _ Hkv). reflexivity.
 Qed.
 
-Lemma eval_static rho n : static_node n -> eval_segs rho (segs_of n) = html_node n.
+Lemma static_not_block n : static_node n -> is_block n = false.
+Proof. destruct n as [k ch]. destruct k; cbn; intros; try reflexivity; contradiction. Qed.
+
+Lemma eval_static rho n : static_node n -> eval_segs rho (segs_of false false n) = html_node n.
 Proof.
-  induction n as [k ch IH] using node_ind2. intro Hs. cbn [static_node] in Hs. cbn [segs_of html_node]. rewrite segs_kids_eq, html_kids_eq.
+  induction n as [k ch IH] using node_ind2. intro Hs. cbn [static_node] in Hs. cbn [segs_of html_node]. rewrite !segs_kids_eq, html_kids_eq.
   destruct k; try contradiction; try reflexivity.
   - destruct Hs as [Hd Hch]. apply static_all_eq in Hch.
-    assert (Hk : eval_segs rho (segs_list ch) = html_list ch).
-    { unfold segs_list, html_list. clear - IH Hch. induction IH as [|c r Hc _ IHr]; [reflexivity|].
-      inversion Hch; subst. cbn [map List.concat]. rewrite eval_app, Hc, IHr by assumption. reflexivity. }
+    assert (Hk : eval_segs rho (segs_list false ch) = html_list ch).
+    { unfold html_list. clear - IH Hch. induction IH as [|c r Hc _ IHr]; [reflexivity|].
+      inversion Hch; subst. cbn [segs_list map List.concat]. rewrite (static_not_block c) by assumption. cbn [andb].
+      rewrite eval_app, Hc, IHr by assumption. reflexivity. }
     destruct Hd as (_ & _ & _ & _ & _ & Hat & _).
     rewrite !eval_app. unfold attrs_segs. rewrite (eval_attrs_static rho _ Hat). unfold elem_open_html, id_class_html.
     destruct (e_selfclosing d).
